@@ -442,3 +442,88 @@ M('c03-wsgi-complete-snapshot-inverted', 'C03', None, 'falcon/app.py',
   "            if not resp.complete:\n                # NOTE(warsaw): Moved this to inside the try except\n",
   "            completed = resp.complete\n            if completed:\n                # NOTE(warsaw): Moved this to inside the try except\n",
   also=('C06', 'C20', 'C02', 'C04', 'C05'))
+
+# ---- wave 11: R5 lifespan handlers prepared by a helper and kept on the app; R7 member enumeration through a listing helper
+_W11_LS_HELPER = '''
+
+def prepare_middleware_lifespan(middleware):
+    startup_handlers = []
+    shutdown_handlers = []
+
+    for component in middleware:
+        process_startup = getattr(component, 'process_startup', None)
+        process_shutdown = getattr(component, 'process_shutdown', None)
+
+        if process_startup is not None:
+            startup_handlers.append(process_startup)
+
+        if process_shutdown is not None:
+            shutdown_handlers.append(process_shutdown)
+
+    return tuple(startup_handlers), %s
+
+
+def default_serialize_error('''
+
+
+def _w11_lifespan(ret, shutdown_iter='shutdown_handlers', startup_iter='startup_handlers'):
+    return [
+        {'file': 'falcon/app_helpers.py', 'old': "\n\ndef default_serialize_error(", 'new': _W11_LS_HELPER % ret},
+        {'file': 'falcon/asgi/app.py', 'old': "from falcon.app_helpers import prepare_middleware_ws\n",
+         'new': "from falcon.app_helpers import prepare_middleware_lifespan\nfrom falcon.app_helpers import prepare_middleware_ws\n"},
+        {'file': 'falcon/asgi/app.py', 'old': "        '_middleware_ws',\n", 'new': "        '_middleware_lifespan',\n        '_middleware_ws',\n"},
+        {'file': 'falcon/asgi/app.py', 'old': "        self._middleware_ws = prepare_middleware_ws(middleware)\n",
+         'new': "        self._middleware_ws = prepare_middleware_ws(middleware)\n        self._middleware_lifespan = prepare_middleware_lifespan(middleware)\n"},
+        {'file': 'falcon/asgi/app.py', 'old': "    ) -> None:\n        while True:\n            event = await receive()\n            if event['type'] == 'lifespan.startup':",
+         'new': "    ) -> None:\n        startup_handlers, shutdown_handlers = self._middleware_lifespan\n\n        while True:\n            event = await receive()\n            if event['type'] == 'lifespan.startup':"},
+        {'file': 'falcon/asgi/app.py', 'old': "                for handler in self._unprepared_middleware:\n                    if hasattr(handler, 'process_startup'):\n                        try:\n                            await handler.process_startup(scope, event)",
+         'new': "                for handler in %s:\n                    if True:\n                        try:\n                            await handler(scope, event)" % startup_iter},
+        {'file': 'falcon/asgi/app.py', 'old': "                for handler in reversed(self._unprepared_middleware):\n                    if hasattr(handler, 'process_shutdown'):\n                        try:\n                            await handler.process_shutdown(scope, event)",
+         'new': "                for handler in %s:\n                    if True:\n                        try:\n                            await handler(scope, event)" % shutdown_iter},
+    ]
+
+
+M2('c03-lifespan-prepared-shutdown-one-shot-reversed', 'C03', 'R5', _w11_lifespan('reversed(shutdown_handlers)'))
+M2('c03-lifespan-prepared-shutdown-one-shot-generator', 'C03', 'R5', _w11_lifespan('(h for h in shutdown_handlers[::-1])'))
+M2('c03-lifespan-prepared-shutdown-one-shot-iter', 'C03', 'R5', _w11_lifespan('iter(tuple(reversed(shutdown_handlers)))'))
+M2('c03-lifespan-prepared-shutdown-forward', 'C03', 'R5', _w11_lifespan('tuple(shutdown_handlers)'))
+M2('c03-lifespan-prepared-shutdown-reversed-twice', 'C03', 'R5', _w11_lifespan('tuple(reversed(shutdown_handlers))', shutdown_iter='reversed(shutdown_handlers)'))
+
+_W11_HOOK_OLD = """            for responder_name, responder in getmembers(
+                responder_or_resource, callable
+            ):
+                if _DECORABLE_METHOD_NAME.match(responder_name):
+                    responder = cast('Responder', responder)
+                    do_%s_all = _wrap_with_%s(responder, action, args, kwargs)
+
+                    setattr(responder_or_resource, responder_name, do_%s_all)
+"""
+_W11_HOOK_NEW = """            for responder_name, responder in _get_decorable_responders(
+                responder_or_resource
+            ):
+                do_%s_all = _wrap_with_%s(responder, action, args, kwargs)
+
+                setattr(responder_or_resource, responder_name, do_%s_all)
+"""
+_W11_LISTING = '''
+
+def _get_decorable_responders(resource_type):
+%s
+
+
+def _wrap_with_after('''
+
+
+def _w11_hooks(body, which=('before', 'after')):
+    return [{'file': 'falcon/hooks.py', 'old': _W11_HOOK_OLD % (w, w, w), 'new': _W11_HOOK_NEW % (w, w, w)} for w in which] + [
+        {'file': 'falcon/hooks.py', 'old': "\n\ndef _wrap_with_after(", 'new': _W11_LISTING % body}]
+
+
+M2('c03-class-hook-listing-helper-vars', 'C03', 'R7', _w11_hooks(
+    "    return [(name, attr) for name, attr in vars(resource_type).items()\n            if _DECORABLE_METHOD_NAME.match(name) and callable(attr)]"))
+M2('c03-class-hook-listing-helper-dunder-dict-local', 'C03', 'R7', _w11_hooks(
+    "    ns = resource_type.__dict__\n    out = []\n    for name, attr in ns.items():\n        if _DECORABLE_METHOD_NAME.match(name) and callable(attr):\n            out.append((name, attr))\n    return out",
+    which=('before',)))
+M2('c03-class-hook-listing-helper-own-filter', 'C03', 'R7', _w11_hooks(
+    "    return [(name, attr) for name, attr in getmembers(resource_type, callable)\n            if _DECORABLE_METHOD_NAME.match(name) and name in vars(resource_type)]",
+    which=('after',)))
